@@ -508,6 +508,7 @@ SITES = [
     # value stack checks
     Site("stack_push_undefineds", "src/stack.c", "push_undefineds", [], "***Stack overflow!"),
     Site("stack_push_some_svalues", "src/stack.c", "push_some_svalues", [], "***Stack overflow!"),
+    Site("stack_merge_arg_lists", "lib/lpc/functional.c", "merge_arg_lists", [], "***Stack overflow!"),
     Site("stack_transfer_push", "src/stack.c", "transfer_push_some_svalues", [], "***Stack overflow!"),
     Site("stack_push_number", "src/stack.c", "push_number", [], "***Stack overflow!"),
     # error(): clamp of the vsnprintf return value (present after the fix)
